@@ -212,6 +212,17 @@ Fixpoint wf (m : list (Z * Z)) (prog : list s_op) : bool :=
                && wf (spec_m m op) t
   end.
 
+(* does the operation change what is stored under k *)
+Definition s_writes (k : Z) (op : s_op) : bool :=
+  match op with SSave k' _ => k' =? k | SDelete k' => k' =? k | _ => false end.
+
+(* does the operation need the worker (it is not answered from _loaded / _waiting_for_load) *)
+Definition needs_worker (st : tstate) (op : s_op) : bool :=
+  match op with
+  | SLoad k | SPreload k => negb (d_has k (t_loaded st)) && negb (ks_mem k (t_waiting st))
+  | SSave _ _ | SDelete _ => true
+  end.
+
 (* tasks the worker still has to finish, in execution order *)
 Definition pending (st : tstate) : list task :=
   (match t_status st with WRun t => [t] | _ => [] end) ++ t_queue st.
